@@ -37,6 +37,7 @@ type Profile struct {
 	Denials     bool // the access policy denies some (token, resource) pairs
 	Malformed   bool // malformed client frames, service answers, events and system events injected
 	StopAt      bool // inject Stop or messaging loss at a random step, then check the shutdown contract
+	Queries     bool // resources 0 and 1 are query resources (normalisation q=K -> q=K mod 2) with query events
 	LongRids    bool // resource ids around the control-line limit
 	Endgame     bool // finish by disconnecting every client and firing every eviction timer
 }
@@ -57,6 +58,7 @@ type Explorer struct {
 	tokens      map[string]int
 	deletedRids map[string]bool
 	pol         map[string]accessPolicy
+	pendingQuery map[string]*pendingQ
 	steps       int
 }
 
@@ -145,14 +147,34 @@ func (x *Explorer) initTruth() {
 			}
 		}
 	}
-	if x.R.Intn(4) == 0 {
+	if x.R.Intn(4) == 0 && !x.P.Queries {
 		x.Truth[name(x.R.Intn(x.P.Resources))] = nil // a resource that does not exist
+	}
+	if x.P.Queries {
+		// resources 0 and 1 are query resources: they exist only with a query; the service normalises q=K to q=(K mod 2)
+		for n := 0; n < 2 && n < x.P.Resources; n++ {
+			x.Truth[name(n)] = nil
+			for nq := 0; nq < 2; nq++ {
+				c := &gw.Content{IsModel: true, M: absval.KV{}}
+				for k := x.R.Intn(3); k >= 0; k-- {
+					c.M[x.R.Intn(4)] = absval.V{K: 'p', N: x.fresh()}
+				}
+				x.Truth[name(n)+"?q="+strconv.Itoa(nq)] = c
+			}
+		}
 	}
 }
 
 func (x *Explorer) truthLines() []string {
 	var out []string
 	for i := 0; i < x.P.Resources; i++ {
+		if x.P.Queries && i < 2 {
+			// every alias a client may use maps to the truth of its normalised query
+			for k := 0; k < 4; k++ {
+				out = append(out, "TRUTH\t"+strconv.Itoa(i)+"q"+strconv.Itoa(k)+"\t"+x.Truth[name(i)+"?q="+strconv.Itoa(k%2)].Abs())
+			}
+			continue
+		}
 		out = append(out, "TRUTH\t"+strconv.Itoa(i)+"\t"+x.Truth[name(i)].Abs())
 	}
 	return out
@@ -188,9 +210,76 @@ func (x *Explorer) answerFor(q *gw.Req) gw.Action {
 		a.Abs = "err\tmalformed"
 		return a
 	}
+	if strings.HasPrefix(q.Subject, "_QUERY_") {
+		// query request following a query event: subject _QUERY_<resource>_<seq>, payload {"query": normalised query}
+		var pl struct {
+			Query string `json:"query"`
+		}
+		json.Unmarshal(q.Payload, &pl)
+		pq := x.pendingQuery[q.Subject]
+		key := ""
+		if pq != nil {
+			key = name(pq.n) + "?" + pl.Query
+		}
+		old, okOld := map[string]*gw.Content(nil), false
+		if pq != nil {
+			old = pq.old
+			_, okOld = old[key]
+		}
+		cur := x.Truth[key]
+		switch {
+		case pq == nil || !okOld || cur == nil:
+			a.Text, a.Abs = `{"result":{"events":[]}}`, "qresult\tnone"
+		case fault:
+			// the service fails to answer: for this variant the announced state stays what it was
+			x.Truth[key] = old[key]
+			if x.R.Intn(2) == 0 {
+				a.Err, a.Abs = "timeout", "err\tsystem.timeout"
+			} else {
+				a.Text, a.Abs = `{"error":{"code":"system.internalError","message":"boom"}}`, "err\tsystem.internalError"
+			}
+		case x.R.Intn(3) == 0:
+			a.Text, a.Abs = `{"result":{"model":`+cur.M.JSON()+`}}`, "qresult\tmodel"
+		default:
+			// the events that turn the old state into the new one
+			ch := absval.KV{}
+			for k, v := range cur.M {
+				if ov, ok := old[key].M[k]; !ok || ov != v {
+					ch[k] = v
+				}
+			}
+			for k := range old[key].M {
+				if _, ok := cur.M[k]; !ok {
+					ch[k] = absval.V{K: 'x'}
+				}
+			}
+			if len(ch) == 0 {
+				a.Text, a.Abs = `{"result":{"events":[]}}`, "qresult\tnone"
+			} else {
+				a.Text, a.Abs = `{"result":{"events":[{"event":"change","data":{"values":`+ch.JSON()+`}}]}}`, "qresult\tevents"
+			}
+		}
+		return a
+	}
 	switch typ {
 	case "get":
+		var gp struct {
+			Query string `json:"query"`
+		}
+		json.Unmarshal(q.Payload, &gp)
 		c := x.Truth[rest]
+		normQ := ""
+		if gp.Query != "" {
+			// normalise q=K to q=(K mod 2)
+			k, _ := strconv.Atoi(strings.TrimPrefix(gp.Query, "q="))
+			normQ = "q=" + strconv.Itoa(k%2)
+			c = x.Truth[rest+"?"+normQ]
+		}
+		if normQ != "" && c != nil && !(fault) {
+			a.Text = `{"result":{"model":` + c.M.JSON() + `,"query":"` + normQ + `"}}`
+			a.Abs = "get\t" + c.Abs() + "\tnorm=" + gw.AbsRID(rest+"?"+normQ)
+			return a
+		}
 		switch {
 		case fault && x.R.Intn(2) == 0:
 			a.Err, a.Abs = "timeout", "err\tsystem.timeout"
@@ -242,7 +331,7 @@ func (x *Explorer) answerFor(q *gw.Req) gw.Action {
 func (x *Explorer) svcEvent() (gw.Action, bool) {
 	var cands []int
 	for i := 0; i < x.P.Resources; i++ {
-		if x.Run.W.MQ.HasSub("event."+name(i)) && x.Truth[name(i)] != nil {
+		if x.Run.W.MQ.HasSub("event."+name(i)) && (x.Truth[name(i)] != nil || (x.P.Queries && i < 2)) {
 			cands = append(cands, i)
 		}
 	}
@@ -253,6 +342,44 @@ func (x *Explorer) svcEvent() (gw.Action, bool) {
 	c := x.Truth[name(n)]
 	a := gw.Action{A: "event", Subj: "event." + name(n)}
 	sn := strconv.Itoa(n)
+	if x.P.Queries && n < 2 {
+		// a query event: every normalised variant may have changed; one query event per resource in flight at a time
+		for subj, pq := range x.pendingQuery {
+			if pq.n == n && x.queryOpen(subj) {
+				return gw.Action{}, false
+			}
+		}
+		x.seq++
+		subj := fmt.Sprintf("_QUERY_%d_%d", n, x.seq)
+		pq := &pendingQ{n: n, old: map[string]*gw.Content{}}
+		for nq := 0; nq < 2; nq++ {
+			key := name(n) + "?q=" + strconv.Itoa(nq)
+			cur := x.Truth[key]
+			pq.old[key] = &gw.Content{IsModel: true, M: absval.KV{}}
+			for k, v := range cur.M {
+				pq.old[key].M[k] = v
+			}
+			if x.R.Intn(3) > 0 {
+				nm := absval.KV{}
+				for k, v := range cur.M {
+					nm[k] = v
+				}
+				for e := 1 + x.R.Intn(2); e > 0; e-- {
+					k := x.R.Intn(4)
+					if _, ok := nm[k]; ok && x.R.Intn(4) == 0 {
+						delete(nm, k)
+					} else {
+						nm[k] = absval.V{K: 'p', N: x.fresh()}
+					}
+				}
+				x.Truth[key] = &gw.Content{IsModel: true, M: nm}
+			}
+		}
+		x.pendingQuery[subj] = pq
+		a.Ev, a.Text = "query", `{"subject":"`+subj+`"}`
+		a.Abs = sn + "\tquery\t" + strconv.Itoa(x.seq)
+		return a, true
+	}
 	if x.P.Malformed && x.R.Intn(4) == 0 {
 		// a malformed or inapplicable event: discarded as a whole, the truth does not change
 		type be struct{ ev, payload string }
@@ -340,6 +467,9 @@ func (x *Explorer) clientFrame(c *gw.Client) (gw.Action, bool) {
 		}
 	}
 	rid := name(n)
+	if x.P.Queries && n < 2 {
+		rid = name(n) + "?q=" + strconv.Itoa(x.R.Intn(4))
+	}
 	if x.P.LongRids && x.R.Intn(6) == 0 {
 		// a valid resource id whose event subject exceeds the messaging system's control line
 		rid = "test.long" + strings.Repeat("x", 4085+x.R.Intn(12))
@@ -406,7 +536,7 @@ func (x *Explorer) quiesce(label string) {
 
 // Explore runs one random history and returns the run.
 func Explore(seed int64, p Profile) (run *gw.Run, stall error) {
-	x := &Explorer{R: gen.New(seed), P: p, nextID: map[string]uint64{}, outstanding: map[string]int{}, direct: map[string]int{}, reqOf: map[string]string{}, tokens: map[string]int{}, deletedRids: map[string]bool{}, pol: map[string]accessPolicy{}}
+	x := &Explorer{R: gen.New(seed), P: p, nextID: map[string]uint64{}, outstanding: map[string]int{}, direct: map[string]int{}, reqOf: map[string]string{}, tokens: map[string]int{}, deletedRids: map[string]bool{}, pol: map[string]accessPolicy{}, pendingQuery: map[string]*pendingQ{}}
 	x.Run = gw.NewRun(func(c *server.Config) {
 		c.ReferenceThrottle = p.Throttle
 		c.ResetThrottle = p.Throttle
@@ -789,6 +919,27 @@ func (x *Explorer) referenced(n int) bool {
 			if v.K == 'r' && v.N == n {
 				return true
 			}
+		}
+	}
+	return false
+}
+
+type pendingQ struct {
+	n   int
+	old map[string]*gw.Content
+}
+
+// queryOpen reports whether the gateway still has unanswered query requests (or has not yet sent them) for the subject.
+func (x *Explorer) queryOpen(subj string) bool {
+	for _, q := range x.Run.W.MQ.Pending() {
+		if q.Subject == subj {
+			return true
+		}
+	}
+	// the query event itself may still be queued in the gateway
+	for _, k := range x.Run.W.Ready() {
+		if strings.HasPrefix(k, "es:") || strings.HasPrefix(k, "go:") {
+			return true
 		}
 	}
 	return false
